@@ -80,6 +80,7 @@ type Ctl struct {
 	Trace   bool
 	UseGID  bool
 	order   []string // sequence of (point,tag) for the interleaving id
+	npoints int
 	random  *randomCfg
 	clients map[*go9p.Clnt]int
 }
@@ -229,7 +230,8 @@ func (c *Ctl) point(point string, obj interface{}) {
 	c.passed[passKey{point, 0, w.Tag}]++
 	c.passed[passKey{point, w.Conn, AnyTag}]++
 	c.passed[passKey{point, 0, AnyTag}]++
-	if len(c.order) < 4096 {
+	c.npoints++
+	if len(c.order) < 8192 {
 		c.order = append(c.order, point+"/"+itoa(w.Tag))
 	}
 	c.cond.Broadcast()
@@ -333,5 +335,12 @@ func (c *Ctl) InterleavingID() string {
 func (c *Ctl) Points() int {
 	c.mu.Lock()
 	defer c.mu.Unlock()
-	return c.passed[passKey{"", 0, AnyTag}] + len(c.order)
+	return c.npoints
+}
+
+// ResetOrder starts a new interleaving id (e.g. at the beginning of a round).
+func (c *Ctl) ResetOrder() {
+	c.mu.Lock()
+	c.order = c.order[:0]
+	c.mu.Unlock()
 }
